@@ -316,3 +316,18 @@ def main(pid, tier):
         'the sqlite fallback, can store); direct archive writes go through a second handle on the same location',
         'drop() on a cache that never had an archive raises ValueError in the code; C08 does not speak about it and it is not generated',
         'HDF5 and sqlalchemy backends cannot be constructed offline'])
+
+
+def replay(pid, path):
+    """re-run the recorded operation sequence on the current tree and let TLC judge it again"""
+    case = json.load(open(path))['case']
+    t = _replay_one((case['backend'], case['ops'], os.path.join(common.scratch('store-replay1'), 'r')))
+    if 'error' in t:
+        raise common.MachineryError(t['error'])
+    verdicts, _ = common.validate_traces('StoreTrace', [{k: t[k] for k in ('cfg', 'init', 'events')}], [pid])
+    if verdicts[0] is None:
+        print('replay: accepted on the current tree')
+        return common.EXIT_OK
+    print('VIOLATION property=%s replay=%s' % (pid, path))
+    print('  clauses: %s at event %d' % (verdicts[0][1], verdicts[0][0]))
+    return common.EXIT_VIOLATION
